@@ -81,7 +81,7 @@ PROPS = {
              "duplicate a target, parent/child coordinate, zero/replace/drop/append/swap proof hashes, wrong hash, wrong tree); "
              "each triple goes to Verify, Pollard.Verify, MapPollard.Verify and VerifyPartialProof; distinct_nontrivial = distinct "
              "accepted triples + distinct mutated triples",
-        strength="P: C03_sound - unbounded soundness of the repaired mirror of Verify and Pollard.Verify (free hash algebra, leaves are atoms, <= 2^63 leaves, no axioms), with rejection corollaries; refutation witnesses for the pinned verifier; V: mirror(Verify/Pollard.Verify/MapPollard.verify) = code on every call; accepted => true on every call (oracle), incl. TotalRows-coordinate targets for map forests",
+        strength="P: C03_sound - unbounded soundness of the repaired mirror of Verify and Pollard.Verify (free hash algebra, leaves are atoms, <= 2^63 leaves, no axioms), with rejection corollaries; C03_sound_map / _map_partial: the same for the mirror of MapPollard.verify and VerifyPartialProof on every state consistent with the reference, positions read in either coordinate system; refutation witnesses for the pinned verifier; V: mirror(Verify/Pollard.Verify/MapPollard.verify) = code on every call; accepted => true on every call (oracle), incl. TotalRows-coordinate targets for map forests",
         level_text="The verifier (calculateHashes, Verify, Pollard.Verify root matching) is mirrored in Gallina and proved SOUND for all "
                    "inputs in the free hash algebra: if the mirror accepts (hashes, targets, proof) against the roots of the reference "
                    "forest of any slot list, every claimed hash is the hash of the node at its claimed position (C03_sound, by a "
@@ -97,7 +97,7 @@ PROPS = {
              "first non-existing position of each row, max position +-1, 0, 1}, 0-9 targets, mismatched lengths, empty and 10x oversized "
              "proofs; every call in a killable child process with a deadline; Stump.Update on a copy, compared with the pre-call "
              "stump on rejection; timing of Verify for 10..10^4 targets; distinct_nontrivial = distinct (targets, #hashes, #proof)",
-        strength="P: atomic rejection (mirror, all inputs), non-termination witness for the pinned loop; V: no hang/panic on generated inputs, mirror = code",
+        strength="P: every entry point is total - Verify, Pollard.Verify, Stump.Update, MapPollard.verify, VerifyPartialProof mirrors return accept or reject for ARBITRARY input on states <= 2^63 leaves (no panic, loop within (k+1)(rows+3) iterations: C04_*_total, calc_iterations_bound); atomic rejection of Stump.Update (all inputs); non-termination witness for the pinned loop; V: no hang/panic on generated inputs incl. stumps up to 2^64-1 leaves, mirror = code",
         level_text="Atomic rejection is a theorem about the state-passing Gallina mirror of Stump.Update for every input; the pinned "
                    "commit's non-terminating loop is exhibited as a Coq witness (and was repaired). Totality on the real code is "
                    "checked by running every entry point on boundary/malformed inputs in a killable child process with a watchdog, "
@@ -110,11 +110,12 @@ PROPS = {
              "fresh copies of Stump, Pollard and MapPollard (TotalRows 0,3,63); (b) histories in which every block is applied in a "
              "non-canonical encoding: targets and hashes jointly permuted, 0-3 junk hashes appended; roots compared with the "
              "reference after deleting exactly the leaves at the claimed positions",
-        strength="refuted(pinned) P; P: mirror of repaired Stump.Update given the canonical proof = reference block application, for every forest/block and over every valid history (C05_stump_applies_block_like_reference, _history); V: accepted (incl. non-canonical) encodings applied identically by all implementations (oracle)",
+        strength="refuted(pinned) P; P: for ANY accepted encoding (any target order, unused trailing hashes) whose targets are leaf positions the mirror of the repaired Stump.Update ends with exactly the reference roots/leaf count, per block and along every history (C05_any_accepted_deletion/_block/_history, free hash algebra, <= 2^63 leaves); outcome independent of the encoding (any injective hash2); canonical encoding: any hash type (C05_stump_applies_block_like_reference, _history); V: accepted (incl. non-canonical) encodings applied identically by all implementations (oracle)",
         level_text="A Coq witness shows that at the pinned commit an accepted proof made the stump delete another leaf than the forests "
                    "(defect D4, repaired). For the repaired code it is a theorem that the mirror of Stump.Update, given the canonical proof "
                    "of distinct live leaves, ends with exactly the reference roots and leaf count of the block (and so over whole "
-                   "histories). On the repaired code every accepted non-canonical encoding is applied to all implementations "
+                   "histories), and - in the free hash algebra - the same for EVERY encoding the verifier accepts whose targets "
+                   "are leaf positions (C05_any_accepted_*). On the repaired code every accepted non-canonical encoding is applied to all implementations "
                    "and judged against the reference forest by the extracted oracle; the Verify mirror is compared on every call.",
         technique="Coq mirror + refutation witness + extracted-oracle correspondence on non-canonical encodings",
         timeout=3000,
@@ -228,16 +229,17 @@ PROPS = {
              "CachedLeaves counts; Pollard and full MapPollard (TotalRows 0,4,63)",
         strength="P: look-up theorems on the reference; V: implementation look-ups = reference; mirror of the MapPollard read side (Model/MapRead.v) = code on every dumped state",
         level_text="Look-up semantics are theorems about the reference layout; every look-up the implementation answers along random "
-                   "histories is judged by the extracted oracle. One known finding (D7) is reported, any other wrong answer is a violation.",
+                   "histories is judged by the extracted oracle.",
         technique="Coq reference model + extracted-oracle correspondence",
     ),
     "C11": dict(
         rule=HIST_RULE + "; every block's UpdateData is compared field by field with the reference update data and the whole "
              "Stump.Update call with its Gallina mirror",
-        strength="P: field order/sortedness on the reference; V: UpdateData = reference, mirror(Stump.Update) = Stump.Update",
+        strength="P: C11_update_data - EVERY field of the update data the mirror of Stump.Update returns for a valid block equals the specification (to_destroy, prev leaf count, new_del, new_add) and the new state is the reference state, any hash type with never-empty hash2, <= 2^63 leaves, no axioms (C11_del_data, rootsToDestroy_spec, stump_add_collects); V: UpdateData = reference, mirror(Stump.Update) = Stump.Update",
         level_text="Update data is defined on the Coq reference (destroyed empty roots in order, post-deletion hashes of every pre-block "
                    "node on a target-to-root path, added leaves and children of created parents); the extracted oracle compares every "
-                   "field of every UpdateData the stump returns, and the Gallina mirror of Stump.Update is compared with the code.",
+                   "field of every UpdateData the stump returns, and the Gallina mirror of Stump.Update is compared with the code. That the "
+                   "mirror returns exactly the specified record for every valid block is a theorem (C11_update_data, C11_update_data_accepted).",
         technique="Coq reference model + mirror of Stump.Update + extracted-oracle correspondence",
     ),
     "C16": dict(
